@@ -70,6 +70,13 @@ NodeReply ==
   /\ rq' = Tail(rq) /\ xsent' = <<>>
   /\ UNCHANGED <<cvars, conn, nbest, cur, shm, latest, gotSH>>
 
+\* a node that does not honour the stop hash (C07: any position of an offending header within any batch)
+NodeReplyRaw ==
+  /\ conn /\ rq # <<>>
+  /\ xq' = Append(xq, [t |-> "hdrs", ids |-> ReplyIds([Head(rq) EXCEPT !.stop = -1])])
+  /\ rq' = Tail(rq) /\ xsent' = <<>>
+  /\ UNCHANGED <<cvars, conn, nbest, cur, shm, latest, gotSH>>
+
 \* the node's chain grows by block b; a node that was sent `sendheaders` announces by headers, otherwise by inv
 NodeAnnounce(b) ==
   /\ conn /\ b \in Blocks /\ HOf(b) > HOf(nbest)
@@ -93,7 +100,9 @@ XIngest(ids, k, acc) ==
        ELSE LET r2 == AddRow(acc.rows, b, Par[b], 1, b)
                 a2 == [acc EXCEPT !.rows = r2]
                 ht == r2[b].height
-            IN IF r2[b].st # "L" THEN XIngest(ids, k + 1, a2)              \* not on the longest chain: skipped
+            IN IF "X2-checkpoint-compared-only-at-cursor" \notin Findings /\ ht \in CpHeights /\ b # CpAtH(ht)
+                 THEN [a2 EXCEPT !.stop = "cpmismatch"]                     \* C07 as stated: any new header at a checkpoint height
+               ELSE IF r2[b].st # "L" THEN XIngest(ids, k + 1, a2)              \* not on the longest chain: skipped
                ELSE IF acc.cur = 0 \/ ht < HOf(acc.cur)
                       THEN XIngest(ids, k + 1, [a2 EXCEPT !.n = @ + 1, !.lastH = ht])
                ELSE IF ht = HOf(acc.cur)
@@ -128,7 +137,7 @@ XStep ==
   /\ xq' = IF conn' THEN Tail(xq) ELSE <<>>
 
 XEnv == \/ \E b \in Blocks \cup {0} : Start(b)
-        \/ NodeReply \/ NodeClose
+        \/ NodeReply \/ NodeReplyRaw \/ NodeClose
         \/ \E b \in Blocks : NodeAnnounce(b)
 XNext == XStep \/ (xq = <<>> /\ XEnv)
 XSpec == XInit /\ [][XNext]_xvars /\ WF_xvars(XStep) /\ WF_xvars(NodeReply)
